@@ -38,20 +38,43 @@ def parse_known(path=None):
     return findings, fixed
 
 
-def _work(i):
+def _work(task):
     from . import unit as U
+    i, shard = task
     u = _UNITS[i]
-    return i, U.run_symbolic(u, _OPTS['z3_ms'], _OPTS['cvc5_ms'], _OPTS['both'], exclude_contracts=_OPTS.get('exclude', {}).get(u.name, ()))
+    return i, shard, U.run_symbolic(u, _OPTS['z3_ms'], _OPTS['cvc5_ms'], _OPTS['both'],
+                                    exclude_contracts=_OPTS.get('exclude', {}).get(u.name, ()), shard=shard)
 
 
 def run_pool(idxs, jobs):
     if not idxs:
         return {}
+    tasks = []
+    for i in idxs:
+        n = getattr(_UNITS[i], 'shards', 1)
+        if n > 1:
+            tasks += [(i, (k, n)) for k in range(n)]
+        else:
+            tasks.append((i, None))
+    # long tasks first
+    tasks.sort(key=lambda t: 0 if t[1] else 1)
     ctx = multiprocessing.get_context('fork')
     out = {}
-    with ctx.Pool(min(jobs, len(idxs))) as pool:
-        for i, r in pool.imap_unordered(_work, idxs):
-            out[i] = r
+    with ctx.Pool(min(jobs, len(tasks))) as pool:
+        for i, shard, r in pool.imap_unordered(_work, tasks):
+            if i not in out:
+                out[i] = r
+            else:                      # merge the shards of one unit
+                m = out[i]
+                m['paths'] += r['paths']
+                m['obligations'] += r['obligations']
+                m['secs'] = max(m['secs'], r['secs'])
+                m['solver_secs'] = m.get('solver_secs', 0) + r.get('solver_secs', 0)
+                m['error'] = m['error'] or r['error']
+                m['out_of_reach'] = m['out_of_reach'] or r['out_of_reach']
+                m['covers'] = sorted(set(m['covers']) | set(r['covers']))
+                for k in ('assumed_contracts', 'unknown_calls'):
+                    m[k] = sorted(set(m[k]) | set(r[k]))
     return out
 
 
